@@ -47,5 +47,5 @@ class Processor(Generic[RET], CommandProcessor[RET]):
         )
 
     def _stderr_part(self, result: RET) -> str:
-        with self.get_stderr(result).open() as f:
+        with self.get_stderr(result).open(errors='replace') as f:
             return self.err_msg_reader.read(f)
